@@ -557,8 +557,9 @@ impl Parser {
         match self.skipped(Operator::Assign)? {
             true => spec.values = self.expression_list()?,
             false => {
-                if self.current_is(LitKind::Ident) {
-                    spec.typ = Some(self.type_()?);
+                // any type, not only one that starts with an identifier
+                spec.typ = self.type_or_none()?;
+                if spec.typ.is_some() {
                     self.expect(Operator::Assign)?;
                     spec.values = self.expression_list()?;
                 }
